@@ -1,18 +1,21 @@
 #!/bin/bash
 # tools/try_seeded.sh <property id> <patch.diff> [tier]
-# Applies a seeded breaking change to /repo, runs the property's check, and ALWAYS restores /repo.
-# Prints DETECTED / MISSED / BROKEN(exit 2).
+# Tries a seeded breaking change WITHOUT touching /repo: makes a scratch worktree of /repo's HEAD under /tmp,
+# applies the patch there, runs the property's check against it (VERIF_REPO), removes the worktree.
+# Prints RESULT ... DETECTED / MISSED / BROKEN(exit 2). (To reproduce the way the brief describes:
+#   git -C /repo apply <patch> && ./check <ID> quick; git -C /repo checkout -- .)
 set -u
-id="$1"; patch="$2"; tier="${3:-quick}"
-cd /repo || exit 2
-if [ -n "$(git status --porcelain)" ]; then echo "try_seeded: /repo is not clean" >&2; exit 2; fi
-if ! git apply --check "$patch" 2>/dev/null; then echo "try_seeded: patch does not apply: $patch" >&2; exit 2; fi
-git apply "$patch"
-trap 'cd /repo && git checkout -- . && git clean -fdq' EXIT
-out=$(cd /verif && VERIF_DIR_OVERRIDE= ./check "$id" "$tier" -no-evidence 2>&1); rc=$?
-echo "$out" | grep -E "^violation|^VIOLATION|^verifsim: $id|KNOWN-FINDING|harness error|nondeterminism" | head -8
+id="$1"; patch="$(readlink -f "$2")"; tier="${3:-quick}"
+name="$(basename "$(dirname "$patch")")"
+wt=$(mktemp -d /tmp/verif-try-XXXXXX); rmdir "$wt"
+git -C /repo worktree add --detach -f "$wt" HEAD >/dev/null 2>&1 || { echo "try_seeded: cannot create worktree" >&2; exit 2; }
+cleanup() { git -C /repo worktree remove --force "$wt" >/dev/null 2>&1; rm -rf "$wt"; tag=$(echo "$wt" | tr -c 'A-Za-z0-9' '_'); rm -f /verif/harness/bin/verifsim-$tag /verif/harness/.alt-$tag.*; }
+trap cleanup EXIT
+if ! git -C "$wt" apply "$patch" 2>/dev/null; then echo "RESULT $id $name: PATCH-DOES-NOT-APPLY"; exit 2; fi
+out=$(cd /verif && VERIF_REPO="$wt" ./check "$id" "$tier" -no-evidence 2>&1); rc=$?
+echo "$out" | grep -E "^violation|^  |KNOWN-FINDING|harness error|nondeterminism" | head -6
 case $rc in
-  1) echo "RESULT $id $(basename $(dirname $patch)): DETECTED" ;;
-  0) echo "RESULT $id $(basename $(dirname $patch)): MISSED" ;;
-  *) echo "RESULT $id $(basename $(dirname $patch)): BROKEN (exit $rc)"; echo "$out" | tail -5 ;;
+  1) echo "RESULT $id $name: DETECTED" ;;
+  0) echo "RESULT $id $name: MISSED"; echo "$out" | tail -1 ;;
+  *) echo "RESULT $id $name: BROKEN (exit $rc)"; echo "$out" | tail -5 ;;
 esac
